@@ -193,6 +193,10 @@ static void handler(const Line& t, Out& o) {
     cpc_union& u = getu(t.at(1)); const cpc_sketch& s = gets(t.at(2));
     try { u.update(s); } catch (...) { un.erase((long)t.at(1)); throw; }
     o.R(1); break; }
+  case 13: { // union r update with an rvalue (moved-from temporary copy of sketch r2)
+    cpc_union& u = getu(t.at(1)); const cpc_sketch& s = gets(t.at(2));
+    try { cpc_sketch tmp(s); u.update(std::move(tmp)); } catch (...) { un.erase((long)t.at(1)); throw; }
+    o.R(1); break; }
   case 12: { // r2 := union r get_result
     const cpc_union& u = getu(t.at(1));
     std::unique_ptr<cpc_sketch> p(new cpc_sketch(u.get_result()));
